@@ -458,106 +458,191 @@ def loop_body(body):
     return body[m.end():i - 1]
 
 
-def function_body(src, name):
-    m = re.search(r"static\s+void\s+" + name + r"\s*\([^)]*\)\s*\{", src)
+def function_def(src, name):
+    """(parameter text, body without comments) of  static void name(...) { ... }"""
+    m = re.search(r"static\s+void\s+" + name + r"\s*\(([^)]*)\)\s*\{", src)
     if not m: raise ValueError("function %s not found" % name)
     i = m.end(); depth = 1
     while depth:
         if src[i] == "{": depth += 1
         elif src[i] == "}": depth -= 1
         i += 1
-    return re.sub(r"/\*.*?\*/", "", src[m.end():i - 1], flags=re.S)
+    return m.group(1), re.sub(r"/\*.*?\*/", "", src[m.end():i - 1], flags=re.S)
+
+
+def function_body(src, name):
+    return function_def(src, name)[1]
+
+
+_inline_counter = [0]
+
+
+def inline_helpers(body, src, keep, depth=0):
+    """Follow calls to same-file static helpers in a straight-line body: the callee's statements are
+    substituted for the call, pointer parameters bound to the caller's objects (f(&s, &s1): p->d becomes
+    s.d, *p becomes s, a pointer passed on becomes &s), value parameters replaced by the argument
+    expression, the callee's locals renamed apart.  Calls of the functions in `keep` (circuits that are
+    translated on their own and expanded at the level of the word language) are left alone; so are
+    statements that are not calls of a static void function of this file.  Depth is bounded."""
+    out = []
+    for st in body.split(";"):
+        t = st.strip()
+        m = re.match(r"(\w+)\s*\((.*)\)$", t, re.S)
+        if not m or m.group(1) in keep or m.group(1) in ("for", "if", "while", "switch", "memcpy", "return"):
+            out.append(st); continue
+        try:
+            params, cbody = function_def(src, m.group(1))
+        except ValueError:
+            out.append(st); continue
+        if depth >= 4: raise ValueError("helper calls nested deeper than 4 at %s" % m.group(1))
+        args = [x.strip() for x in m.group(2).split(",")] if m.group(2).strip() else []
+        pars = [x.strip() for x in params.split(",")] if params.strip() and params.strip() != "void" else []
+        if len(args) != len(pars): raise ValueError("call of %s: %d arguments for %d parameters" % (m.group(1), len(args), len(pars)))
+        if re.search(r"\b(for|while|if|switch|return|goto)\b", cbody):
+            raise ValueError("helper %s is not straight-line code" % m.group(1))
+        _inline_counter[0] += 1
+        tag = "__%d" % _inline_counter[0]
+        # rename the callee's locals apart
+        for dm in re.finditer(r"(?:^|;)\s*(?:uint32_t|uint64_t|openssl_uni|int|unsigned char)\s+([^;()]+)", cbody):
+            for v in dm.group(1).split(","):
+                v = v.strip().lstrip("*").strip()
+                if re.match(r"[A-Za-z_]\w*$", v):
+                    cbody = re.sub(r"\b%s\b" % v, v + tag, cbody)
+        for par, arg in zip(pars, args):
+            pm = re.match(r"(?:const\s+)?[\w ]+?(\*?)\s*(\w+)$", par)
+            if not pm: raise ValueError("parameter %r of %s" % (par, m.group(1)))
+            is_ptr, pn = pm.group(1) == "*", pm.group(2)
+            if is_ptr:
+                if not arg.startswith("&"): raise ValueError("pointer argument %r of %s is not the address of an object" % (arg, m.group(1)))
+                obj = arg[1:].strip()
+                cbody = re.sub(r"\b%s\s*->\s*" % pn, obj + ".", cbody)
+                cbody = re.sub(r"\*\s*%s\b" % pn, obj, cbody)
+                cbody = re.sub(r"\b%s\b(?!\.)" % pn, "&" + obj, cbody)
+            else:
+                cbody = re.sub(r"\b%s\b" % pn, "(" + arg + ")", cbody)
+        out.append(inline_helpers(cbody, src, keep, depth + 1))
+    return ";".join(out)
+
 
 def gen_params_text(repo, gen_inc, builddir):
+    """Never raises for something it cannot read in the sources: the failure becomes a comment and a
+    definition that does not type-check in the generated file, i.e. a broken proof obligation whose Coq
+    error message carries the reason."""
     des_c = os.path.join(repo, "muggle/c/crypt/openssl/openssl_des.c")
     aes_c = os.path.join(repo, "muggle/c/crypt/openssl/openssl_aes.c")
-    os.makedirs(builddir, exist_ok=True)
-    src = os.path.join(builddir, "c12_params.c")
-    with open(src, "w") as f:
-        f.write('#include <stdio.h>\n#include "%s"\n' % des_c)
-        f.write('int main(void){int i,j;'
-                'for(i=0;i<8;i++){for(j=0;j<64;j++)printf("%lu ",(unsigned long)openssl_des_sptrans[i][j]);printf("\\n");}'
-                'for(i=0;i<8;i++){for(j=0;j<64;j++)printf("%lu ",(unsigned long)openssl_des_skb[i][j]);printf("\\n");}'
-                'return 0;}\n')
-    exe = os.path.join(builddir, "c12_params")
-    p = subprocess.run(["gcc", "-std=gnu11", "-w", "-DNDEBUG", "-DMUGGLE_C_EXPORTS", "-I" + repo, "-I" + gen_inc, src,
-                        os.path.join(repo, "muggle/c/crypt/parity.c"), "-o", exe], capture_output=True, text=True, timeout=120)
-    if p.returncode != 0: raise RuntimeError("cannot compile the table extractor:\n" + p.stderr[-2000:])
-    out = subprocess.run([exe], capture_output=True, text=True, timeout=20).stdout.strip().split("\n")
-    rows = [[int(x) for x in ln.split()] for ln in out]
-    if len(rows) != 16 or any(len(r) != 64 for r in rows): raise RuntimeError("unexpected table shape")
+    fails = []
+
+    def attempt(label, f, fallback):
+        try:
+            return f()
+        except Exception as e:          # noqa: BLE001 - every extraction failure is reported the same way
+            fails.append("%s: %s" % (label, str(e).strip().replace("\n", " ")[:300]))
+            return fallback
+
+    def tables():
+        os.makedirs(builddir, exist_ok=True)
+        src = os.path.join(builddir, "c12_params.c")
+        with open(src, "w") as f:
+            f.write('#include <stdio.h>\n#include "%s"\n' % des_c)
+            f.write('int main(void){int i,j;'
+                    'for(i=0;i<8;i++){for(j=0;j<64;j++)printf("%lu ",(unsigned long)openssl_des_sptrans[i][j]);printf("\\n");}'
+                    'for(i=0;i<8;i++){for(j=0;j<64;j++)printf("%lu ",(unsigned long)openssl_des_skb[i][j]);printf("\\n");}'
+                    'return 0;}\n')
+        exe = os.path.join(builddir, "c12_params")
+        p = subprocess.run(["gcc", "-std=gnu11", "-w", "-DNDEBUG", "-DMUGGLE_C_EXPORTS", "-I" + repo, "-I" + gen_inc, src,
+                            os.path.join(repo, "muggle/c/crypt/parity.c"), "-o", exe], capture_output=True, text=True, timeout=120)
+        if p.returncode != 0: raise ValueError("cannot compile the table extractor: " + p.stderr[-400:])
+        out = subprocess.run([exe], capture_output=True, text=True, timeout=20).stdout.strip().split("\n")
+        rows = [[int(x) for x in ln.split()] for ln in out]
+        if len(rows) != 16 or any(len(r) != 64 for r in rows): raise ValueError("unexpected table shape")
+        return rows
+    rows = attempt("openssl_des_sptrans / openssl_des_skb", tables, [[] for _ in range(16)])
     dsrc = open(des_c).read()
+
     def macro_body(name):
         m = re.search(r"#define\s+" + name + r"\b.*?\n((?:.*\\\n)*.*\n)", dsrc)
-        if not m: raise RuntimeError("macro %s not found" % name)
+        if not m: raise ValueError("macro %s not found" % name)
         return m.group(0)
+
     def perm_ops(text):
-        ops = []
-        for m in re.finditer(r"MUGGLE_OPENSSL_DES_(H?)PERM_OP\(\s*(\w+)\s*,\s*(\w+)\s*,(?:\s*(\w+)\s*,)?\s*(-?\d+)\s*,\s*(0x[0-9a-fA-F]+)L?\s*\)", text):
-            ops.append(m.groups())
-        return ops
-    ip = perm_ops(macro_body("MUGGLE_OPENSSL_DES_IP"))
-    fp = perm_ops(macro_body("MUGGLE_OPENSSL_DES_FP"))
-    if len(ip) != 5 or len(fp) != 5: raise RuntimeError("IP/FP macro: expected 5 PERM_OPs")
+        return [m.groups() for m in re.finditer(
+            r"MUGGLE_OPENSSL_DES_(H?)PERM_OP\(\s*(\w+)\s*,\s*(\w+)\s*,(?:\s*(\w+)\s*,)?\s*(-?\d+)\s*,\s*(0x[0-9a-fA-F]+)L?\s*\)", text)]
+
     def enc_ops(ops):     # (a is the macro's r?, n, mask)
         return "[" + "; ".join("(%s, %d%%nat, %d)" % ("true" if a == "r" else "false", int(n), int(mk, 16)) for (h, a, b, t, n, mk) in ops) + "]"
-    sk = dsrc[dsrc.index("void muggle_openssl_des_set_key_unchecked"):]
-    sk = sk[:sk.index("d = (((d &")]
-    pc1 = perm_ops(sk)
-    def enc_pc1(ops):
+
+    def ipfp(name):
+        ops = perm_ops(macro_body(name))
+        if len(ops) != 5: raise ValueError("expected 5 PERM_OPs, found %d" % len(ops))
+        return enc_ops(ops)
+    ip = attempt("MUGGLE_OPENSSL_DES_IP", lambda: ipfp("MUGGLE_OPENSSL_DES_IP"), "[]")
+    fp = attempt("MUGGLE_OPENSSL_DES_FP", lambda: ipfp("MUGGLE_OPENSSL_DES_FP"), "[]")
+
+    def pc1():
+        sk = dsrc[dsrc.index("void muggle_openssl_des_set_key_unchecked"):]
+        sk = sk[:sk.index("d = (((d &")]
         o = []
-        for (h, a, b, t, n, mk) in ops:
+        for (h, a, b, t, n, mk) in perm_ops(sk):
             if h:   # HPERM_OP(a, t, n, m): groups: a=var, b=t
                 o.append("inr (%s, %d%%nat, %d)" % ("true" if a == "d" else "false", 16 - int(n), int(mk, 16)))
             else:
                 o.append("inl (%s, %d%%nat, %d)" % ("true" if a == "d" else "false", int(n), int(mk, 16)))
+        if not o: raise ValueError("no PERM_OP / HPERM_OP found before the d fix-up")
         return "[" + "; ".join(o) + "]"
-    den = macro_body("MUGGLE_OPENSSL_D_ENCRYPT")
-    looks = re.findall(r"openssl_des_sptrans\[(\d)\]\[\((u|t)>>\s*(\d+)L\)&0x3f\]", den)
-    if len(looks) != 8: raise RuntimeError("D_ENCRYPT: expected 8 table lookups")
-    m = re.search(r"shifts1\[16\]\s*=\s*\{([^}]*)\}", dsrc)
-    shifts = [int(x.strip().rstrip("L")) for x in m.group(1).split(",") if x.strip()]
-    if len(shifts) != 16: raise RuntimeError("shifts1")
-    m = re.search(r"shifts2\[16\]\s*=\s*\{([^}]*)\}", dsrc)
-    shifts2 = [int(x.strip().rstrip("L")) for x in m.group(1).split(",") if x.strip()]
-    if len(shifts2) != 16: raise RuntimeError("shifts2")
+    pc1ops = attempt("DES_set_key_unchecked PC-1", pc1, "[]")
+
+    def lookups():
+        looks = re.findall(r"openssl_des_sptrans\[(\d)\]\[\((u|t)>>\s*(\d+)L\)&0x3f\]", macro_body("MUGGLE_OPENSSL_D_ENCRYPT"))
+        if len(looks) != 8: raise ValueError("expected 8 table lookups, found %d" % len(looks))
+        return "[%s]" % "; ".join("(%s%%nat, %s, %s%%nat)" % (t, "true" if v == "t" else "false", s) for t, v, s in looks)
+    looks = attempt("MUGGLE_OPENSSL_D_ENCRYPT", lookups, "[]")
+
+    def shifts(name):
+        m = re.search(name + r"\[16\]\s*=\s*\{([^}]*)\}", dsrc)
+        if not m: raise ValueError("array not found")
+        v = [int(x.strip().rstrip("L")) for x in m.group(1).split(",") if x.strip()]
+        if len(v) != 16: raise ValueError("expected 16 entries")
+        return "[%s]%%nat" % ";".join(map(str, v))
+    sh1 = attempt("shifts1", lambda: shifts("shifts1"), "[]")
+    sh2 = attempt("shifts2", lambda: shifts("shifts2"), "[]")
+
     def tab(name, rs):
         return "Definition %s : list (list N) :=\n  [ %s ].\n" % (name, ";\n    ".join("[" + ";".join(str(v) for v in r) + "]" for r in rs))
     txt = ["(* GENERATED by lib/props/c12.py gen_params from muggle/c/crypt/openssl/openssl_des.c and openssl_aes.c",
            "   on every run; do not edit.  Tables are printed by a C program that #includes the .c file; the",
-           "   PERM_OP sequences, lookup order, shift schedule and the bitsliced S-box circuits are read from the source text. *)",
-           "From Coq Require Import List NArith.", "From MV Require Import C12.Bitvec.", "Import ListNotations.", "Local Open Scope N_scope.", "",
+           "   PERM_OP sequences, lookup order, shift schedule and the straight-line circuits are read from the source text",
+           "   (calls of same-file static helpers are followed). *)",
+           "From Coq Require Import List NArith String.", "From MV Require Import C12.Bitvec.", "Import ListNotations.", "Local Open Scope N_scope.", "",
            tab("des_sptrans", rows[:8]), tab("des_skb", rows[8:]),
            "(* (first macro argument is r, shift n, mask m) for each PERM_OP(a,b,tt,n,m) *)",
-           "Definition des_ip_ops : list (bool * nat * N) := %s." % enc_ops(ip),
-           "Definition des_fp_ops : list (bool * nat * N) := %s." % enc_ops(fp),
+           "Definition des_ip_ops : list (bool * nat * N) := %s." % ip,
+           "Definition des_fp_ops : list (bool * nat * N) := %s." % fp,
            "(* set_key: inl (a is d, n, m) = PERM_OP(a,b,t,n,m); inr (a is d, 16-n, m) = HPERM_OP(a,t,n,m) *)",
-           "Definition des_pc1_ops : list (bool * nat * N + bool * nat * N) := %s." % enc_pc1(pc1),
+           "Definition des_pc1_ops : list (bool * nat * N + bool * nat * N) := %s." % pc1ops,
            "(* D_ENCRYPT: (table, index taken from t (true) or u (false), right shift) *)",
-           "Definition des_round_lookups : list (nat * bool * nat) := [%s]." % "; ".join("(%s%%nat, %s, %s%%nat)" % (t, "true" if v == "t" else "false", s) for t, v, s in looks),
-           "Definition des_shifts1 : list nat := [%s]%%nat." % ";".join(map(str, shifts)),
-           "Definition des_shifts2 : list nat := [%s]%%nat." % ";".join(map(str, shifts2)), ""]
+           "Definition des_round_lookups : list (nat * bool * nat) := %s." % looks,
+           "Definition des_shifts1 : list nat := %s." % sh1,
+           "Definition des_shifts2 : list nat := %s." % sh2, ""]
     asrc = open(aes_c).read()
     done = {}
-    def emit(fn, stmts, outv):
+
+    def emit(fn, res):
+        stmts, outv, nv = res
         nm = fn.replace("openssl_", "aes_")
         txt.append("Definition %s_prog : prog :=\n  [ %s ].\nDefinition %s_out : nat := %d%%nat.\n" % (
             nm, ";\n    ".join("(%d%%nat, %s)" % (v, e) for v, e in stmts), nm, outv))
-    for fn, w in (("openssl_sub_u64", 64), ("openssl_inv_sub_u64", 64), ("openssl_sub_u32", 32),
-                  ("openssl_xtime_u64", 64), ("openssl_xtime_u32", 32)):
-        try:
-            stmts, outv, nv = translate_straightline(function_body(asrc, fn), w)
-        except ValueError as e:
-            raise RuntimeError("%s: %s" % (fn, e))
-        done[fn] = (stmts, outv, nv)
-        emit(fn, stmts, outv)
+    circuits = ("openssl_sub_u64", "openssl_inv_sub_u64", "openssl_sub_u32", "openssl_xtime_u64", "openssl_xtime_u32")
+    for fn, w in zip(circuits, (64, 64, 32, 64, 32)):
+        res = attempt(fn, lambda: translate_straightline(inline_helpers(function_body(asrc, fn), asrc, circuits), w), ([], 0, 1))
+        done[fn] = res
+        emit(fn, res)
     # one iteration of the column loop of (inv_)mix_columns: state[c] in, state[c] out, xtime expanded in place
     for fn in ("openssl_mix_columns", "openssl_inv_mix_columns"):
-        try:
-            stmts, outv, nv = translate_straightline(loop_body(function_body(asrc, fn)), 64, inp=r"state\[c\]", calls=done)
-        except ValueError as e:
-            raise RuntimeError("%s: %s" % (fn, e))
-        emit(fn, stmts, outv)
+        emit(fn, attempt(fn, lambda: translate_straightline(
+            inline_helpers(loop_body(function_body(asrc, fn)), asrc, circuits), 64, inp=r"state\[c\]", calls=done), ([], 0, 1)))
+    for k, msg in enumerate(fails):
+        txt.append("(* EXTRACTION FAILED: %s *)" % msg.replace("*)", "* )").replace("(*", "( *"))
+        txt.append('Definition extraction_failed_%d : ("%s" = "")%%string := eq_refl.\n' % (k + 1, msg.replace('"', '""')))
     return "\n".join(txt)
 
 
